@@ -211,7 +211,7 @@ func C20(e *Env) {
 	must(os.WriteFile(in3, refcrypt.BuildImage(p3, regs, key), 0o644))
 	srcDir, _ := genISOTree(r, root, "clobbertree", tree.GenOpt{MaxDepth: 1, MaxEntries: 4, MaxSize: 5000, NameLen: 8}, false)
 	victims := e.Dir("victims")
-	for vi, kind := range []string{"existing-file", "existing-empty-file", "existing-directory", "symlink-to-file", "existing-big-file"} {
+	for vi, kind := range []string{"existing-file", "existing-empty-file", "existing-directory", "symlink-to-file", "existing-big-file", "new-path-with-existing-.part", "new-path-with-existing-.tmp"} {
 		for ti, tool := range [][]string{{"make-iso", srcDir}, {"make-iso", "--ps3-mode", srcDir}, {"decrypt", "redump", in, keyf}, {"decrypt", "3k3y", in3}} {
 			target := filepath.Join(victims, fmt.Sprintf("v%d_%d", vi, ti))
 			switch kind {
@@ -227,17 +227,29 @@ func C20(e *Env) {
 				must(os.Symlink(target+".real", target))
 			case "existing-big-file":
 				must(os.WriteFile(target, tree.Content(int64(vi*10+ti), 3<<20), 0o644))
+			case "new-path-with-existing-.part":
+				must(os.WriteFile(target+".part", []byte("somebody else's partial download, must survive"), 0o644))
+			case "new-path-with-existing-.tmp":
+				must(os.WriteFile(target+".tmp", []byte("another file that merely looks temporary"), 0o644))
+				must(os.WriteFile(target+"~", []byte("editor backup"), 0o644))
 			}
+			newPath := strings.HasPrefix(kind, "new-path")
 			before := model.Snapshot(victims)
 			res := runCLI(e.Bin, out, append(append([]string{}, tool...), target)...)
 			after := model.Snapshot(victims)
 			run.Eval(1)
 			run.Sig("%s onto %s", strings.Join(tool[:min(2, len(tool))], " "), kind)
 			wit := map[string]any{"tool": tool, "target_kind": kind, "exit": res.code, "stderr": firstLines(string(res.stderr), 4)}
-			if d := model.SnapDiff(before, after, nil); len(d) > 0 {
+			var allow []string
+			if newPath {
+				allow = []string{target} // the output itself is new; everything that existed must be as before
+			}
+			if d := model.SnapDiff(before, after, allow); len(d) > 0 {
 				run.Violate("clobbered", kind, fmt.Sprintf("%v with an already existing output (%s) changed it: %v", tool[:2], kind, d), wit)
 			}
-			if res.code == 0 {
+			if newPath {
+				os.Remove(target)
+			} else if res.code == 0 {
 				run.Violate("clobber-exit-zero", kind, fmt.Sprintf("%v with an already existing output (%s) exited 0", tool[:2], kind), wit)
 			}
 		}
